@@ -33,7 +33,7 @@ import numpy as np
 from harness import common as C
 from harness import c20 as S      # simulator builders / snapshots / generator proxy (own file of the same builder)
 
-IMPORTS = "From FDAV Require Import Base.Num Base.Vec Base.Cmp Model.Simul Tie.C19."
+IMPORTS = "From Coq Require Import Uint63.\nFrom FDAV Require Import Base.Num Base.Vec Base.Cmp Model.Simul Tie.C19."
 
 RULE = ("simulators {KarhunenLoeve univariate/multivariate, 1-D/2-D/mixed, bases fourier, legendre, wiener, bsplines; Brownian standard, "
         "geometric, fractional; Datasets zhang_chen} x call sequences of length 1..6 over {new, add_noise, sparsify, add_noise_and_sparsify} "
@@ -379,7 +379,7 @@ def kl_structure(rep, rng, specs, quick, dd, run, todo):
                                  {**info, "component": p})
                 Bf, Xf = B.reshape(B.shape[0], -1), X.reshape(X.shape[0], -1)
                 tol = 1e-12 * max(1.0, float(np.max(np.abs(C0))) * float(np.max(np.abs(Bf))) * Bf.shape[0])
-                t = run.add(f"kl_check {C.qlit(tol)} {Bf.shape[1]}%nat {C.qmat(C0)} {C.qmat(Bf)} {C.qmat(Xf)}")
+                t = run.add(f"kl_check {S.ql(tol)} {Bf.shape[1]}%nat {S.qmat(C0)} {S.qmat(Bf)} {S.qmat(Xf)}")
                 todo.append((t, "kl-model", f"component {p}: data differ from the model kl_data (component-0 coefficients x basis)",
                              {**info, "component": p, "coef": C.hexf(C0), "basis": C.hexf(Bf), "data": C.hexf(Xf)}))
             lab = np.asarray(sim.labels).astype(int).tolist()
@@ -450,7 +450,7 @@ def eig_terms(run, todo, dd, fam, n, ev, info, where):
     if max(abs(float(r) - float(v)) for r, v in zip(ref, ev)) > 1e-12:
         dd.violation("eig-numeric", f"{where}: {fam} eigenvalues differ from the reference formula by more than 1e-12: {ev.tolist()}", info)
     if fam in FAMILIES_Q:
-        t = run.add(f"eig_check {FAMILIES_Q[fam]}%nat {n}%nat {C.qlit(3e-16)} {C.qlist(ev)} && pos_noninc_b {C.qlist(ev)}")
+        t = run.add(f"eig_check {FAMILIES_Q[fam]}%nat {n}%nat {S.ql(3e-16)} {S.qlist(ev)} && pos_noninc_b {S.qlist(ev)}")
         todo.append((t, "eig-model", f"{where}: {fam} eigenvalues {ev.tolist()} differ from the exact model (n={n})",
                      {**info, "family": fam, "n": n, "impl": C.hexf(ev)}))
     else:
@@ -547,14 +547,14 @@ def brownian(rep, rng, quick, dd, run, todo):
             dd.violation("brownian-start", f"standard Brownian paths start at {X[:, 0].tolist()}, requested {init}", info)
         if not S.same_grids(S.grid_of(sim.data), [t]):
             dd.violation("brownian-grid", "standard Brownian data are not on the requested grid", info)
-        tq = run.add(f"delta_check {C.qlit(1e-15 * max(1.0, delta))} {C.qlist(t)} {C.qlit(delta)} && "
-                     f"qclose {C.qlit(1e-15 * max(1.0, delta))} {C.qlit(sd)} {C.qlit(sd)}")
+        tq = run.add(f"delta_check {S.ql(1e-15 * max(1.0, delta))} {S.qlist(t)} {S.ql(delta)} && "
+                     f"qclose {S.ql(1e-15 * max(1.0, delta))} {S.ql(sd)} {S.ql(sd)}")
         todo.append((tq, "brownian-delta", "step size differs from the model (max - min) / size", info))
         if len(zs) == n_obs * (m - 1):
             for r in range(n_obs):
                 z = zs[r * (m - 1):(r + 1) * (m - 1)]
                 tol = 1e-12 * max(1.0, abs(init), float(np.max(np.abs(X[r]))))
-                tq = run.add(f"std_check {C.qlit(tol)} {C.qlit(init)} {C.qlit(sd)} {C.qlist(z)} {C.qlist(X[r])}")
+                tq = run.add(f"std_check {S.ql(tol)} {S.ql(init)} {S.ql(sd)} {S.qlist(z)} {S.qlist(X[r])}")
                 todo.append((tq, "brownian-std-model", f"standard Brownian path {r} differs from init + cumsum(sqrt(delta) * draws)",
                              {**info, "path": r, "draws": C.hexf(z), "values": C.hexf(X[r])}))
         else:
@@ -577,7 +577,7 @@ def brownian(rep, rng, quick, dd, run, todo):
             for r in range(n_obs):
                 es = np.exp((mu - sigma ** 2 / 2) * delta + sigma * recs[r])
                 tol = 1e-12 * max(1.0, float(np.max(np.abs(X[r]))))
-                tq = run.add(f"geo_check {C.qlit(tol)} {C.qlit(init_g)} {C.qlist(es)} {C.qlist(X[r])} && pos_noninc_b [{C.qlit(float(np.min(X[r])))}]")
+                tq = run.add(f"geo_check {S.ql(tol)} {S.ql(init_g)} {S.qlist(es)} {S.qlist(X[r])} && pos_noninc_b [{S.ql(float(np.min(X[r])))}]")
                 todo.append((tq, "brownian-geo-model", f"geometric Brownian path {r} differs from init * cumprod(exp(..)) or is not positive",
                              {**info, "path": r, "exp": C.hexf(es), "values": C.hexf(X[r])}))
         rep.case(("bm-geo", t.tobytes(), seed, init_g, mu, sigma), kind="brownian/geometric",
@@ -636,7 +636,7 @@ def brownian(rep, rng, quick, dd, run, todo):
                              f"{'differ' if not expect else 'agree'} beyond np.isclose: diffs {d.tolist()}", info)
             if not accepted and not (sim.data is d0 and S.same_snapshot(S.snapshot(sim.data), snap0) and gen_state(sim) == st0):
                 dd.violation("grid-state", "a rejected grid changed the simulator (data or generator state)", info)
-            tq = run.add(f"grid_check {C.qlit(1e-5)} {C.qlit(1e-8)} {C.qlist(t)} {C.blit(accepted)}")
+            tq = run.add(f"grid_check {S.ql(1e-5)} {S.ql(1e-8)} {S.qlist(t)} {C.blit(accepted)}")
             todo.append((tq, "grid-model", f"Brownian({name!r}).new {'accepted' if accepted else 'rejected'} a {kind} grid; the model's "
                          f"regular-grid decision says the opposite (diffs {d.tolist()})", info))
             rep.case(("grid", name, t.tobytes()), kind=f"grid/{kind}", sample={"name": name, "kind": kind, "accepted": accepted})
